@@ -311,18 +311,21 @@ void small_free_memory_list::deallocate(void* mem) noexcept
     auto info =
         allocator_info(FOONATHAN_MEMORY_LOG_PREFIX "::detail::small_free_memory_list", this);
 
-    auto node = static_cast<unsigned char*>(detail::debug_fill_free(mem, node_size_, 0));
+    auto node = static_cast<unsigned char*>(mem);
 
-    auto chunk     = find_chunk_impl(node);
-    dealloc_chunk_ = chunk;
+    auto chunk = find_chunk_impl(node);
     // memory was never allocated from list
     detail::debug_check_pointer([&] { return chunk != nullptr; }, info, mem);
+    dealloc_chunk_ = chunk;
 
     auto offset = static_cast<std::size_t>(node - chunk->list_memory());
     // memory is not at the right position
     debug_check_pointer([&] { return offset % node_size_ == 0u; }, info, mem);
     // double-free
     debug_check_double_dealloc([&] { return !chunk->contains(node, node_size_); }, info, mem);
+
+    // only mark the memory as freed after it is known to be a node of this list
+    detail::debug_fill_free(mem, node_size_, 0);
 
     auto index = offset / node_size_;
     FOONATHAN_MEMORY_ASSERT(index < chunk->no_nodes);
